@@ -172,16 +172,16 @@ func (nopTracker[TK]) Remove(ctx context.Context, item *btree.Item[TK, int]) err
 // ---------------------------------------------------------------------------------------------
 
 type gstore[TK btree.Ordered] struct {
-	b    *btree.Btree[TK, int]
-	im   inmemory.BtreeInterface[TK, int]
-	mk   func(Key) TK
-	un   func(TK) Key
-	repo *nodeRepo[TK] // nil for the shipped variant
-	ctx  context.Context
-	seen map[sop.UUID]bool
-	hasNil             bool
-	minLeaf, maxLeaf   int
-	buf  []Obs // Walk result buffer, reused: the result is only valid until the next Walk
+	b                *btree.Btree[TK, int]
+	im               inmemory.BtreeInterface[TK, int]
+	mk               func(Key) TK
+	un               func(TK) Key
+	repo             *nodeRepo[TK] // nil for the shipped variant
+	ctx              context.Context
+	seen             map[sop.UUID]bool
+	hasNil           bool
+	minLeaf, maxLeaf int
+	buf              []Obs // Walk result buffer, reused: the result is only valid until the next Walk
 }
 
 // NewStore builds one fresh tree for cfg.
@@ -234,12 +234,16 @@ func build[TK btree.Ordered](cfg Config, comparer btree.ComparerFunc[TK], mk fun
 	return s, nil
 }
 
-func (s *gstore[TK]) Add(k Key, v int) (bool, error)           { return s.b.Add(s.ctx, s.mk(k), v) }
-func (s *gstore[TK]) AddIfNotExist(k Key, v int) (bool, error) { return s.b.AddIfNotExist(s.ctx, s.mk(k), v) }
-func (s *gstore[TK]) Upsert(k Key, v int) (bool, error)        { return s.b.Upsert(s.ctx, s.mk(k), v) }
-func (s *gstore[TK]) Update(k Key, v int) (bool, error)        { return s.b.Update(s.ctx, s.mk(k), v) }
-func (s *gstore[TK]) UpdateKey(k Key) (bool, error)            { return s.b.UpdateKey(s.ctx, s.mk(k)) }
-func (s *gstore[TK]) UpdateCurrentKey(k Key) (bool, error)     { return s.b.UpdateCurrentKey(s.ctx, s.mk(k)) }
+func (s *gstore[TK]) Add(k Key, v int) (bool, error) { return s.b.Add(s.ctx, s.mk(k), v) }
+func (s *gstore[TK]) AddIfNotExist(k Key, v int) (bool, error) {
+	return s.b.AddIfNotExist(s.ctx, s.mk(k), v)
+}
+func (s *gstore[TK]) Upsert(k Key, v int) (bool, error) { return s.b.Upsert(s.ctx, s.mk(k), v) }
+func (s *gstore[TK]) Update(k Key, v int) (bool, error) { return s.b.Update(s.ctx, s.mk(k), v) }
+func (s *gstore[TK]) UpdateKey(k Key) (bool, error)     { return s.b.UpdateKey(s.ctx, s.mk(k)) }
+func (s *gstore[TK]) UpdateCurrentKey(k Key) (bool, error) {
+	return s.b.UpdateCurrentKey(s.ctx, s.mk(k))
+}
 func (s *gstore[TK]) UpdateCurrentItem(k Key, v int) (bool, error) {
 	return s.b.UpdateCurrentItem(s.ctx, s.mk(k), v)
 }
@@ -306,7 +310,8 @@ func (s *gstore[TK]) SetBudget(n int) {
 
 // Walk: in-order traversal of the repository from StoreInfo.RootNodeID. Only invariants whose breach
 // is unambiguous are reported (see Problem classes); the item sequence itself is judged by the caller
-// against the model.
+// against the model. Neither is a verdict on its own: the caller re-judges every walk alarm through the
+// public cursor API (exec.content).
 //
 //	dangling-child   a non-nil child id that the repository does not hold
 //	parent-mismatch  child.ParentID != id of the node that lists it
